@@ -21,6 +21,6 @@ TRUSTED = ["model: coq/theories/Model/{Comb,Ser,Poly,ChkC11}.v (hand written mir
            "Python json / pickle / copy modules and NumPy tolist/frombuffer are oracles (float printing, tuple->list)",
            "energies, num_occurrences, extra vectors and info are compared by the worker in Python (exact ==, dtype and shape), not in Coq"]
 ASSUMPTIONS = ["generated numbers are small dyadics, exactly representable in every dtype used",
-               "labels are compared with Python dict semantics: an integral float label and the equal int are one label",
+               "labels after a round trip are compared with Python dict semantics (a float label equal to its own position is handed back by Variables as that int), but the emitted variable_labels must carry ints for integer labels and floats for float labels, nested ones included; label pools contain integers beyond 2^53 so that a float detour changes the value",
                "object-dtype BQMs in the random stream hold Python floats (Python-int biases: see findings obj_bqm_*)"]
 PARTIAL = []
